@@ -103,6 +103,9 @@ def _gen_evse(r, kind):
                 r.shuffle(rates)
             if r.random() < 0.3 and rates:
                 rates.append(rates[0])
+            if r.random() < 0.12 and rates:
+                # two distinct levels a hair apart (a measured level next to its nominal value)
+                rates.append(round(r.choice(rates) + r.choice([1e-4, 3e-4, 2e-3, 5e-3]), 6))
         return {"type": "Finite", "rates": rates}
     raise ValueError(kind)
 
